@@ -19,10 +19,12 @@ RecoveryAdvData::parse*), the mDNS TXT / address iterators, CommissionableFilter
 the Matter-TLV -> X.509 conversion (CertRef::encode, DN, Extension, ASN1Writer - it runs on peer certificates before their
 signature is checked), the X.509 / CSR / DER-signature decoders and the Certification Declaration parser; parsing done inside the
 `der` and `domain` crates is outside the analysed crate. (d) every CertConsumer::utctime call site passes a 32-bit certificate
-field or a constant (the date conversion it unwraps is total on that range).
+field or a constant (the date conversion it unwraps is total on that range); (e) in parse_pairing_code each digits_at(offset, len)
+group is bounded to its field (7, 0xFFFF, 0x1FFF, 0xFFFF, 0xFFFF) by a comparison whose failing edge leaves before Ok, or by its integer type.
 """
 CLAUSES = ['a: encoder/decoder field tables agree (PlainHdr, ProtoHdr, StatusReport)', 'b: decoder panic surface discharged (headers, pairing codes, BDX, check-in, BTP, BLE advertisements, mDNS TXT, certificate conversion, X.509/CSR/CD decoders)',
-           'c: check digit / prefix / length refusals guard acceptance', 'd: utctime argument bounded at every call site']
+           'c: check digit / prefix / length refusals guard acceptance', 'd: utctime argument bounded at every call site',
+           'e: every digit group of the manual code is bounded to its field width']
 NOT_DECIDED = ['equality of decoded and encoded field values', 'base-38 and bit-packing arithmetic', 'parsing inside the external `der` and `domain` crates', 'equality of the X.509 form with the TLV form of a certificate']
 MIN_OBLIGATIONS = {'q': 70, 'd': 70, 'r': 70}
 
@@ -150,6 +152,40 @@ def check(R):
                      f'constant {a["k"].get("p", a["k"].get("v"))}' if const else f'{bits}-bit value ({p7.expr_key(b, a)})',
                      f'argument {p7.expr_key(b, a)} is not bounded to 32 bits: MATTER_EPOCH_SECS + epoch / from_unix_timestamp().unwrap() can panic on a peer certificate',
                      b.where(t.bb))
+
+    # ---- e --------------------------------------------------------------------
+    with R.clause('e'):
+        # "codes with out-of-range fields are refused": every decimal digit group of the manual pairing code is bounded to the width of the
+        # field it encodes before the code is accepted - by a comparison that leaves on the error edge, or by being parsed into an integer
+        # type that cannot hold more
+        pp = R.body('pairing::qr::QrPayload::parse_pairing_code')
+        BOUND = {(0, 1): 7, (1, 5): 0xFFFF, (6, 4): 0x1FFF, (10, 5): 0xFFFF, (15, 5): 0xFFFF}
+        calls = pp.calls('pairing::qr::QrPayload::digits_at')
+        R.floor('digit groups read in parse_pairing_code', len(calls), 5)
+        oks = ok_return_bbs(pp)
+        seen = set()
+        for t in calls:
+            off, ln = t.d['a'][1].get('k', {}).get('v'), t.d['a'][2].get('k', {}).get('v')
+            if (off, ln) not in BOUND:
+                raise AnchorLost(f'digits_at({off}, {ln}) is not a digit group of the manual code layout known to this rule')
+            seen.add((off, ln))
+            bound = BOUND[(off, ln)]
+            m = __import__('re').search(r'Result<(u8|u16|u32|u64|usize)', pp.local_ty(t.d['d'][0]) if t.d.get('d') else '')
+            tymax = {'u8': 0xFF, 'u16': 0xFFFF}.get(m.group(1)) if m else None
+            what = f'accept the manual code cut-by digit group ({off},{ln}) <= {bound:#x}'
+            if tymax is not None and tymax <= bound:
+                R.ok('P2', pp.fn, what, f'parsed as {m.group(1)}: cannot exceed {tymax:#x}', pp.where(t.bb))
+                continue
+
+            def edges(t=t, bound=bound):
+                e = set()
+                isv = lambda s_: any(x[0] == 'call' and x[1].endswith('::digits_at') and x[2] == t.bb for x in s_)
+                for op, take_true, okc in (('Gt', False, lambda c: c <= bound), ('Ge', False, lambda c: c <= bound + 1), ('Le', True, lambda c: c <= bound), ('Lt', True, lambda c: c <= bound + 1)):
+                    for bb, te, fe in prims.cmp_guard_edges(pp, op, isv, lambda s_: any(isinstance(v, int) and okc(v) for v in src_consts(s_)), symmetric=False):
+                        e |= te if take_true else fe
+                return e
+            R.cut_from('P2', pp, t.d['to'], 'accept the manual code', oks, f'digit group ({off},{ln}) <= {bound:#x}', edges)
+        R.expect('P5', pp.fn, 'all five digit groups of the layout are read', seen == set(BOUND) or seen == set(BOUND) - {(10, 5), (15, 5)}, f'{sorted(seen)}', f'groups read: {sorted(seen)}')
 
     # ---- c --------------------------------------------------------------------
     with R.clause('c'):
